@@ -288,7 +288,7 @@ pub fn equality(seed: u64, n: usize, out: &str) {
                 day += 1;
             }
         }
-        let variant = r.below(9);
+        let variant = r.below(10);
         let mut hols2 = hols.clone();
         let (a, b, what): (Obj, Obj, &str) = match variant {
             // identical behaviour, different structure
@@ -330,6 +330,12 @@ pub fn equality(seed: u64, n: usize, out: &str) {
                 }
                 hols2.push(dn(d));
                 (Obj::C(Cal::new(hols2, mask.clone())), Obj::U(UnionCal::new(vec![base.clone()], None)), "cal-vs-union-weekend-holiday")
+            }
+            9 => {
+                // a settlement part that restricts nothing ("all" has no closed day): same behaviour as the bare calendar,
+                // whichever side the plain calendar stands on
+                let s = format!("{}|all", base_name);
+                (Obj::C(base.clone()), Obj::N(NamedCal::try_new(&s).unwrap()), "cal-vs-named-all-settle")
             }
             8 => {
                 // identical holiday lists, different working weeks
